@@ -9,12 +9,12 @@ mkdir -p $W/$D; cp $O/*_test.go $W/$D/ 2>/dev/null
 echo "--- demo without change (must pass)"; (cd $W/$D && go test -vet=off -count=1 -run "$R" . 2>&1 | tail -3)
 git -C $W apply $O/patch.diff || { echo "PATCH DOES NOT APPLY"; exit 9; }
 echo "--- build + existing tests with change (must pass)"
-mv $W/$D/seeded_*_r4_test.go /tmp/ 2>/dev/null
+mv $W/$D/seeded_*_test.go /tmp/ 2>/dev/null
 (cd $W/$T && go build ./... && go test -vet=off -count=1 ./... 2>&1 | grep -v "no test files" | tail -6)
 m=$(basename $T); [ -d $W/e2e/$m ] && (cd $W/e2e && go test -vet=off -count=1 ./$m/... 2>&1 | tail -3)
 cp $O/*_test.go $W/$D/
 echo "--- demo with change (must fail)"; (cd $W/$D && go test -vet=off -count=1 -run "$R" . 2>&1 | tail -4)
-rm -f $W/$D/seeded_*_r4_test.go
+rm -f $W/$D/seeded_*_test.go
 for p in "$@"; do
   echo "--- ./check $p against the changed tree"
   (cd ${VERIF_ROOT:-/verif} && VERIF_REPO=$W ./check $p --tier quick 2>&1 | tail -4)
